@@ -143,7 +143,8 @@ class CeluPlugin(PrimitiveLeafPlugin):
         ) -> Callable[..., ArrayLike]:
             if orig is None:
                 raise RuntimeError("Original jax.nn.celu not found")
-            return lambda *args, **kwargs: cls._PRIM.bind(*args, **kwargs)
+            # the hyper-parameter is a keyword of the primitive, however it was passed
+            return lambda x, alpha=1.0: cls._PRIM.bind(x, alpha=alpha)
 
         return [
             AssignSpec("jax.nn", "celu_p", cls._PRIM, delete_if_missing=True),
